@@ -310,6 +310,72 @@ def install(w):
         h = ex.w.ufun("md5_hex", z3.StringSort(), z3.StringSort())
         return Z(h(u(d(ex.to_py(args[0])))))
 
+    @b("has_attr_executor")
+    def _has_attr_executor(ex, args, kw, e, env):
+        return Z(ex.w.ufun("hasattr___func_adl_executor", ex.S.Py, z3.BoolSort())(ex.to_py(args[0])))
+
+    @b("attr_executor")
+    def _attr_executor(ex, args, kw, e, env):
+        return Z(ex.w.ufun("attr___func_adl_executor", ex.S.Py, ex.S.Py)(ex.to_py(args[0])))
+
+    @b("source_of")
+    def _source_of(ex, args, kw, e, env):
+        """The source text the library renders for an embeddable value: repr(v) (TRUSTED: for the
+        value types of C13 str(v) == repr(v) unless v is a str)."""
+        f = ex.w.ufun("repr_of", ex.S.Py, z3.StringSort())
+        return Z(f(ex.to_py(args[0])))
+
+    @b("embeddable")
+    def _embeddable(ex, args, kw, e, env):
+        """v is a str/int/float/bool/None/bytes or list/tuple/dict nesting of these AND its repr is
+        an expression source (trusted CPython fact for these types, cross-checked bounded)."""
+        f = ex.w.ufun("embeddable", ex.S.Py, z3.BoolSort())
+        t = ex.to_py(args[0])
+        r = ex.w.ufun("repr_of", ex.S.Py, z3.StringSort())
+        so = ex.w.ufun("str_of", ex.S.Py, z3.StringSort())
+        es = ex.w.ufun("expr_source", z3.StringSort(), z3.BoolSort())
+        P = ex.P
+        S = ex.S
+        one = S.cons(t, S.nil)
+        # facts that come with embeddability (assumed library model):
+        ex.assume(z3.Implies(f(t), es(r(t))))
+        ex.assume(z3.Implies(z3.And(f(t), z3.Not(P.is_PStr(t))), so(t) == r(t)))
+        ex.assume(z3.Implies(z3.And(f(t), P.is_PStr(t)), f(P.PList(one))))
+        ex.assume(z3.Implies(f(P.PList(one)), z3.And(es(r(P.PList(one))),
+                                                     so(P.PList(one)) == r(P.PList(one)))))
+        return Z(f(t))
+
+    @b("repr")
+    def _repr(ex, args, kw, e, env):
+        f = ex.w.ufun("repr_of", ex.S.Py, z3.StringSort())
+        return Z(f(ex.to_py(args[0])))
+
+    @b("n_calls")
+    def _n_calls(ex, args, kw, e, env):
+        return Z(z3.IntVal(len(ex.ctx.ghost_calls)))
+
+    @b("call_fn")
+    def _call_fn(ex, args, kw, e, env):
+        i = z3.simplify(args[0].t).as_long()
+        if i >= len(ex.ctx.ghost_calls):
+            return Z(ex.fresh("no_such_call", ex.S.Py))
+        return Z(ex.ctx.ghost_calls[i][0])
+
+    @b("call_arg")
+    def _call_arg(ex, args, kw, e, env):
+        i = z3.simplify(args[0].t).as_long()
+        j = z3.simplify(args[1].t).as_long()
+        if i >= len(ex.ctx.ghost_calls) or j >= len(ex.ctx.ghost_calls[i][1]):
+            return Z(ex.fresh("no_such_arg", ex.S.Py))
+        return Z(ex.ctx.ghost_calls[i][1][j])
+
+    @b("call_result")
+    def _call_result(ex, args, kw, e, env):
+        i = z3.simplify(args[0].t).as_long()
+        if i >= len(ex.ctx.ghost_calls):
+            return Z(ex.fresh("no_such_call", ex.S.Py))
+        return Z(ex.ctx.ghost_calls[i][2])
+
     @b("uf")
     def _uf(ex, args, kw, e, env):
         """uf("name", x, ...) — uninterpreted Py-valued function (trusted library symbol)."""
